@@ -24,7 +24,7 @@ ASSUMPTIONS = [
     'a finite idle wait with nothing pending is ordinary idling and is released by the scheduler (virtual passage of time)',
     'systematic exploration is bounded to two pre-emptions; beyond that schedules are random',
 ]
-REQUIRED = ['schedules_run', 'preemptions_inside_window', 'loop_blocked_in_idle_wait', 'foreign_fire_woke_loop', 'rlock_double_instances',
+REQUIRED = ['descriptors_came_and_went_before_the_loop_started', 'schedules_run', 'preemptions_inside_window', 'loop_blocked_in_idle_wait', 'foreign_fire_woke_loop', 'rlock_double_instances',
             'event_double_instances', 'mechanism_fallback', 'mechanism_Select', 'mechanism_EPoll', 'timer_present', 'generator_task_present',
             'two_firers', 'second_manager_idling', 'poller_cleaned_up_a_descriptor_closed_behind_its_back', 'event_fired_on_a_component_that_joins_leaves_and_joins_again']
 REQUIRED_OBLIGATIONS = ['NO_LOST_WAKEUP', 'EXACTLY_ONCE', 'THREAD_FIFO', 'LOOP_ENDS_AFTER_STOP']
@@ -87,6 +87,44 @@ def build(scn, S):
         poller.addReader(holder, a)
         poller.addReader(holder, c)
         c.close()
+    if scn.get('gone_fd') and mech != 'fallback':
+        # descriptors of the application that came and WENT before the loop starts, leaving the poller's wake-up pipe alone again: closed by their
+        # owner and then taken off / discarded (for good measure, twice), discarded while open, closed and discarded without having been
+        # taken off.  (Taking ONE role off a closed descriptor that still has the other makes Poll and EPoll raise ValueError on this tree - an
+        # observation outside this property, see DESIGN 8.19 - so those sequences are not part of the set-up.)  Every one of these calls is legal; the wake-up pipe must still be heard afterwards
+        import socket as _socket
+        holder = BaseComponent(channel='holder').register(app)
+        poller = [x for x in app.components if isinstance(x, pollers.BasePoller)][0]
+        st['socks'] = []
+        for how in scn['gone_fd']:
+            a, b_ = _socket.socketpair()
+            st['socks'] += [a, b_]
+            if how == 'w-close-remove-discard':
+                poller.addWriter(holder, a)
+                a.close()
+                poller.removeWriter(a)
+                poller.discard(a)
+            elif how == 'rw-close-discard-discard':
+                poller.addReader(holder, a)
+                poller.addWriter(holder, a)
+                a.close()
+                poller.discard(a)
+                poller.discard(a)
+            elif how == 'r-close-remove-discard':
+                poller.addReader(holder, a)
+                a.close()
+                poller.removeReader(a)
+                poller.discard(a)
+            elif how == 'r-discard-open':
+                poller.addReader(holder, a)
+                poller.discard(a)
+                poller.discard(a)
+            elif how == 'r-close-discard':
+                poller.addReader(holder, a)
+                a.close()
+                poller.discard(a)
+            else:
+                raise ValueError(how)
     if scn.get('timer'):
         Timer(1000.0, Event.create('tmr'), persist=True).register(app)
     if scn.get('second_manager'):
@@ -259,6 +297,8 @@ def scenarios(tier):
                 {'mech': 'Select', 'firers': 1, 'events': 1}, {'mech': 'EPoll', 'firers': 1, 'events': 2, 'timer': True},
                 {'mech': 'fallback', 'firers': 1, 'events': 1, 'second_manager': True},
                 {'mech': 'Select', 'firers': 1, 'events': 2, 'stale_fd': True}, {'mech': 'Poll', 'firers': 1, 'events': 1, 'stale_fd': True},
+                {'mech': 'Poll', 'firers': 1, 'events': 1, 'gone_fd': ['w-close-remove-discard']},
+                {'mech': 'EPoll', 'firers': 1, 'events': 1, 'gone_fd': ['r-discard-open', 'rw-close-discard-discard', 'r-close-remove-discard']},
                 {'mech': 'fallback', 'firers': 1, 'events': 2, 'via': 'detached'}]
     out = []
     for mech in ['fallback', 'Select', 'Poll', 'EPoll']:
@@ -272,6 +312,9 @@ def scenarios(tier):
         if mech != 'fallback':
             out.append({'mech': mech, 'firers': 1, 'events': 2, 'stale_fd': True})
             out.append({'mech': mech, 'firers': 2, 'events': 2, 'stale_fd': True, 'task': True})
+            for gone in (['w-close-remove-discard'], ['rw-close-discard-discard'], ['r-discard-open'], ['r-close-discard'], ['r-close-remove-discard'],
+                         ['r-discard-open', 'w-close-remove-discard', 'r-close-discard', 'rw-close-discard-discard', 'r-close-remove-discard']):
+                out.append({'mech': mech, 'firers': 1, 'events': 1, 'gone_fd': gone})
     return out
 
 
@@ -334,6 +377,8 @@ def explore(b, scn, plans_iter, S, in_window):
             b.reached('second_manager_idling')
         if scn.get('via') == 'detached':
             b.reached('event_fired_on_a_component_that_joins_leaves_and_joins_again')
+        if scn.get('gone_fd') and res['loop_blocked']:
+            b.reached('descriptors_came_and_went_before_the_loop_started')
         if scn.get('stale_fd') and res['loop_blocked']:
             b.reached('poller_cleaned_up_a_descriptor_closed_behind_its_back')
         b.reached('virtual_timeouts', res['virtual_timeouts'])
